@@ -386,29 +386,30 @@ Definition rtable_create_tail (c : tablecreate) : script :=
 Definition rtable_create (c : tablecreate) : script :=
   rtable_create_head c ++ wss " ( " ++ sep_by comma (tc_elements c) ++ wss " )" ++ rtable_create_tail c.
 
-(* Postgres ModifyColumn: the fold over the specs with its hand-managed `first` flag *)
-Definition pg_no_comma (s : colspec) : bool :=
-  match s with CSAutoIncrement | CSGenerated _ _ | CSUsing _ => true | _ => false end.
+(* Postgres ModifyColumn: the fold over the specs with its `first` flag; specifications without an ALTER
+   action write nothing and leave the flag alone; USING is written with ALTER COLUMN .. TYPE *)
+Definition pg_no_action (s : colspec) : bool :=
+  match s with CSAutoIncrement | CSGenerated _ _ | CSComment _ | CSUsing _ => true | _ => false end.
 Fixpoint pg_modify_specs (name : str) (first : bool) (specs : list colspec) : script :=
   match specs with
   | [] => []
   | s :: rest =>
-      (if negb first && negb (pg_no_comma s) then wss ", " else []) ++
+      if pg_no_action s then pg_modify_specs name first rest else
+      (if negb first then wss ", " else []) ++
       (match s with
-       | CSAutoIncrement => []
        | CSNull => wss "ALTER COLUMN " ++ [WId name] ++ wss " DROP NOT NULL"
        | CSNotNull => wss "ALTER COLUMN " ++ [WId name] ++ wss " SET NOT NULL"
        | CSDefault e => wss "ALTER COLUMN " ++ [WId name] ++ wss " SET DEFAULT " ++ dex e
        | CSUniqueKey => wss "ADD UNIQUE (" ++ [WId name] ++ wss ")"
        | CSPrimaryKey => wss "ADD PRIMARY KEY (" ++ [WId name] ++ wss ")"
-       | CSCheck e => rcheck e
-       | CSGenerated _ _ => []
+       | CSCheck e => wss "ADD " ++ rcheck e
        | CSExtra x => [WCust x]
-       | CSComment _ => []
-       | CSUsing e => wss " USING " ++ dex e
+       | CSAutoIncrement | CSGenerated _ _ | CSComment _ | CSUsing _ => []
        end) ++
       pg_modify_specs name false rest
   end.
+Definition pg_modify_using (specs : list colspec) : script :=
+  flat_map (fun s => match s with CSUsing e => wss " USING " ++ dex e | _ => [] end) specs.
 
 Definition ralter_option (o : alteropt) : script :=
   match o with
@@ -422,7 +423,7 @@ Definition ralter_option (o : alteropt) : script :=
       | MySQL => wss "MODIFY COLUMN " ++ rcolumn_def c
       | Postgres =>
           opt_script (cd_type c) (fun t => wss "ALTER COLUMN " ++ [WId (cd_name c)] ++ wss " TYPE " ++
-                                           rcoltype false t) ++
+                                           rcoltype false t ++ pg_modify_using (cd_spec c)) ++
           pg_modify_specs (cd_name c) (match cd_type c with None => true | Some _ => false end) (cd_spec c)
       | SQLite => [WPanic]
       end
